@@ -291,3 +291,21 @@ Proof.
   pose proof (minMax_from_spec f r k k x x) as H. unfold minmax_spec_from in H.
   destruct (mapM f r) as [ks| | | |]; cbn [bind] in *; exact H.
 Qed.
+
+(* ---------- multiUse = direct application of every function to the list ---------- *)
+Lemma multi_apply_spec : forall l fs,
+  multi_apply l fs =
+  bind (mapM (fun kb => ceval [VList l] (snd kb)) fs) (fun vs => Ok (combine (map fst fs) vs)).
+Proof.
+  intros l. induction fs as [|[k b] r IH]; cbn [multi_apply mapM map fst snd bind]; [reflexivity|].
+  destruct (ceval [VList l] b) as [v| | | |]; cbn [bind]; try reflexivity.
+  rewrite IH. destruct (mapM (fun kb => ceval [VList l] (snd kb)) r); reflexivity.
+Qed.
+
+Theorem multiUse_spec : forall l fs, fs <> [] ->
+  bind (run_list (of_list l) M_multiUse [AFM fs]) force = spec_list l M_multiUse [AFM fs].
+Proof.
+  intros l fs H. destruct fs as [|f r]; [congruence|]. cbn [run_list spec_list]. rewrite collect_of_list. cbn [bind].
+  rewrite multi_apply_spec.
+  destruct (mapM (fun kb => ceval [VList l] (snd kb)) (f :: r)); reflexivity.
+Qed.
